@@ -32,10 +32,12 @@ proc_checks = {
  "C04": ("fault_enumeration", "Kill points between system calls for every multi-event command kind (claim, multi-field set, new task with state/claim, prune of several items, sequence, plan on empty and non-empty logs, compact): the observable state afterwards is exactly the state before or the state after (computed by the ideal spec), judged by TLC.", "5 C04", "TLA+ model checking (TLC) + crash-point enumeration on real processes"),
  "C13": ("model_checking", "A lock-free `list --json --all` parked at each of its sync points (opened, probed) while each writer kind (append, prune, compact and plan rewrites) is advanced to each of its sync points or killed mid-line: the reader must exit 0 and its output must be the view of a whole-event prefix between the logs that were on disk during its window (TLC computes the allowed set from the recorded snapshots).", "5 C13", "TLA+ model checking (TLC) + schedule replay on real processes"),
 }
+other_checks = {
+ "C17": ("exploration", "TLC enumerates the path matrix (input mode x command x field x text class x follow-up) and the trim rule (ErgoText: only titles given by flag or by set may be trimmed); each case is concretised into seeded strings (controls incl. NUL, quotes, HTML, U+2028/2029, astral, combining, NBSP padding, 64 KB, 200 KB of escapable characters), round-tripped through the real binary and judged by TLC from the reported relation (equal/trimmed/different/rejected), also after follow-ups (set other field, compact x2, plan rewrite, reopen).", "5 C17", "TLA+ case enumeration (TLC) + seeded concretisation + TLC-judged round trips", "text", "The quantifier over all Unicode strings is sampled by class, not enumerated; argv cannot carry NUL or >128 KB arguments."),
+ "C18": ("exploration", "TLC enumerates every layout (which of 3 nested levels hold .ergo x start level x 7 spellings x presence of plans.jsonl/events.jsonl/lock) and defines Resolve/LogFile; each layout is materialised with a marker task per log file and exercised with where, list, show, set, new, claim, prune, plan, compact and init; TLC judges which store `where` names, which files each command changed (byte hashes), which markers reads showed, lock recreation and init idempotence.", "5 C18", "TLA+ configuration enumeration (TLC) + real file-system layouts + TLC-judged observations", "fs", "Directory chains of depth 3; non-target stores hold plans.jsonl + lock; the quick tier samples 500 of the layouts, thorough runs all."),
+ "C19": ("exploration", "TLC-drawn crafted stores (every state/claim/membership/dependency combination over 3 tasks + 2 epics) with titles/agents concretised from width-unambiguous character classes are listed with each flag on pseudo-terminals of seeded widths (20-160) and on a pipe; rows are parsed (id, connector glyph, display width, id column) and TLC (ErgoList) compares them with the --json view: every item once with --all, active tasks once, --ready exact, children under their own epic, summary = bucket counts, empty sentence, row fits, id column constant, valid UTF-8.", "5 C19", "TLA+ state generation (TLC) + pty-driven real output + TLC-judged projection", "list", "Display width is judged only over characters of unambiguous width; row order is not judged; widths below 20 are out of scope."),
+}
 not_applicable = {
- "C17": "text engine (ErgoText) not built yet",
- "C18": "layout engine (ErgoFS) not built yet",
- "C19": "human list engine not built yet",
 }
 
 def main():
@@ -71,6 +73,23 @@ def main():
           "level_note": PROC_NOTE if pid in proc_checks else SEQ_NOTE,
           "technique": tech,
         })
+    for pid in sorted(other_checks):
+        cat, text, ref, tech, eng, note = other_checks[pid]
+        m["checks"].append({
+          "property_id": pid,
+          "quick_cmd": f"./harness/check run {pid} --tier quick",
+          "thorough_cmd": f"./harness/check run {pid} --tier thorough",
+          "evidence_file": f"/verif/evidence/{pid}.json",
+          "engine": eng,
+          "level_claimed": {"category": cat, "text": text, "design_ref": ref},
+          "level_note": note + " Verdicts are TLA+ clauses evaluated by TLC on facts the harness reports; trusted: TLC, Go stdlib.",
+          "technique": tech,
+        })
+    m["checks"].sort(key=lambda c: c["property_id"])
+    m["engines"] += [
+       {"name": "text", "path": "harness/checks_text.go", "serves_properties": ["C17"], "kind_free_text": "case matrix from spec/ErgoText.tla, seeded strings, round trips judged by TLC"},
+       {"name": "fs", "path": "harness/checks_fs.go", "serves_properties": ["C18"], "kind_free_text": "layouts from spec/ErgoFS.tla materialised on disk, judged by TLC"},
+       {"name": "list", "path": "harness/checks_list.go", "serves_properties": ["C19"], "kind_free_text": "crafted stores listed on ptys of chosen widths, rows judged by TLC with spec/ErgoList.tla"}]
     json.dump(m, open(os.path.join(root, "MANIFEST.json"), "w"), indent=1)
     print("checks:", len(m["checks"]), "not_applicable:", len(m["not_applicable"]))
 
